@@ -221,6 +221,26 @@ pub fn run(env: &Env) -> Report {
                 }
             }
         }
+        // the configuration changes in the MIDDLE of a word (update_engine), then a key WITHOUT a character (keypad Enter) asks for the
+        // suggestion again. C05 quantifies over histories under ONE configuration, so this is not held to the oracle (a first version did,
+        // and a variant "list off, word typed, list on again" raised an alarm on the unchanged tree: the suffix forms need the prefixes to have
+        // been looked up key by key with the list on — DESIGN §10.3); the events are traced, the model correspondence sees them.
+        if ui % 8 == 4 {
+            let xdg = env.fresh_xdg(&format!("c05-{}-flip", ui));
+            for (wi, w) in ["as", "smile", "ami", "kor", "atm", "bol"].iter().enumerate() {
+                for flip in 0..3usize {
+                    t.line(&format!("case c05-{}-flip-{}-{}", ui, wi, flip));
+                    let mut o1 = Opts::none(); o1.phonetic_suggestion = true; o1.smart_quote = ui % 16 == 4;
+                    let mut o2 = o1; match flip { 0 => o2.english = true, 1 => o2.ansi = true, _ => o2.smart_quote = !o2.smart_quote }
+                    let mut warm = match Sess::new(&mut t, &env.data, "warm", PHONETIC, o1, &xdg) { Some(mut s) => { s.follow_sel = false; s } None => continue };
+                    warm.type_text(&mut t, w); warm.update(&mut t, PHONETIC, o2);
+                    warm.key(&mut t, 3612, 0, 0);
+                    warm.finish(&mut t);
+                    rep.count("midword-flip-ignored-key");
+                    t.line("drop warm");
+                }
+            }
+        }
         // the DATA FILE of the user (auto-correct list) is edited and then removed while a warm context lives; after the configuration is
         // reloaded the warm context and a brand-new one see the same files, so they must show the same suggestions — also for the
         // words the warm context composed (and memoised) under the old file
